@@ -316,6 +316,13 @@ func evalTokList(c CaseTokList) Result {
 		if c.Entry == "uriparams" && up.Types != types {
 			return fail("Types = %#x, want %#x", uint(up.Types), uint(types))
 		}
+		if c.Entry == "uriparams" {
+			if up.Empty() != (up.N == 0) || up.More() != (up.N > len(up.Params)) || up.PNo() != minInt(up.N, len(up.Params)) {
+				return fail("URIParamsLst predicates: N=%d capacity=%d Empty()=%v More()=%v PNo()=%d", up.N, len(up.Params), up.Empty(), up.More(), up.PNo())
+			}
+		} else if uh.Empty() != (uh.N == 0) || uh.More() != (uh.N > len(uh.Hdrs)) || uh.HNo() != minInt(uh.N, len(uh.Hdrs)) {
+			return fail("URIHdrsLst predicates: N=%d capacity=%d Empty()=%v More()=%v HNo()=%d", uh.N, len(uh.Hdrs), uh.Empty(), uh.More(), uh.HNo())
+		}
 		wantStored := len(items)
 		if c.PCap < 0 {
 			wantStored = 0
